@@ -145,6 +145,55 @@ def handle (line : Json) : Json :=
       | .raised c => Json.mkObj [("r", "raised"), ("cls", c)]
       | .stuck w => Json.mkObj [("r", "stuck"), ("why", w)]
     Json.mkObj [("interp", interp), ("model", model)]
+  | "correctly_signed_response" =>
+    let s : Sp.Sig := match strD line "sig" with
+      | "valid" => .valid | "corrupted" => .corrupted | "untrusted" => .untrusted | _ => .absent
+    let req := boolD line "req"
+    let must := boolD line "must"
+    let r := run Sp.pyStrip (csrExt s.present (s == .valid)) Gen.PyFuns.SecurityContext_correctly_signed_response
+      [.obj [], .str "<xml>", .bool must, .none, .bool false, .bool req, .obj []]
+    let model : Result := match sigGate s req with
+      | some _ => .raised "SignatureError"
+      | none => .value (respV s.present)
+    Json.mkObj [("interp", resJson r), ("model", resJson model)]
+  | "loads" =>
+    let s : Sp.Sig := match strD line "sig" with
+      | "valid" => .valid | "corrupted" => .corrupted | "untrusted" => .untrusted | _ => .absent
+    let req := boolD line "req"
+    let asy := boolD line "asynchop"
+    let irt : Option String := str? line "irt"
+    let outs : List (String × String) := match (line.getObjVal? "outs").bind (·.getArr?) with
+      | .ok a => a.toList.filterMap (fun x => match x.getArr? with
+          | .ok p => match p.toList with
+            | [k, v] => match k.getStr?, v.getStr? with
+              | .ok ks, .ok vs => some (ks, vs)
+              | _, _ => none
+            | _ => none
+          | .error _ => none)
+      | .error _ => []
+    let uns := boolD line "allow_uns"
+    let attrErr := boolD line "attr_err"
+    let mis := boolD line "mis" && !attrErr
+    let sigR : R Val := match sigGate s req with | some _ => .raise "SignatureError" | none => .ok .none
+    let chk : R Val := if attrErr then .raise "AttributeError" else .ok (.bool (!mis))
+    let out := runMethod Sp.pyStrip (loadsExt sigR chk) Gen.PyFuns.AuthnResponse_loads
+      [.obj (selfLoads asy irt outs uns), .str "<xml>", .bool false, .none]
+    let cfOut : Json := match cameFromOf out.2 with | some v => valJson v | none => Json.null
+    let interp : Json := match out.1 with
+      | .value _ => Json.mkObj [("r", "value"), ("came_from", cfOut)]
+      | .raised c => Json.mkObj [("r", "raised"), ("cls", c)]
+      | .stuck w => Json.mkObj [("r", "stuck"), ("why", w)]
+    -- a Response whose clear assertions give the model's scan the same answer
+    let other : Sp.Assertion := { subject := some { nameId := none, confs := [{ method := .bearer, data := some { irt := some "\u0000other" } }] } }
+    let noSubj : Sp.Assertion := { subject := none }
+    let resp : Sp.Response := { sig := s, inResponseTo := irt, assertions := if attrErr then [noSubj] else if mis then [other] else [] }
+    let cfg : Sp.Cfg := { allowUnsolicited := uns }
+    let env : Sp.Env := { asynchop := asy, outstanding := outs }
+    let model : Json := match Sp.loads cfg env req resp with
+      | .ok cf => Json.mkObj [("r", "value"), ("came_from", match cf with | some c => Json.str c | none => Json.null)]
+      | .error .unsolicited => Json.mkObj [("r", "raised"), ("cls", "UnsolicitedResponse")]
+      | .error _ => Json.mkObj [("r", "raised"), ("cls", "SignatureError")]
+    Json.mkObj [("interp", interp), ("model", model)]
   | _ => Json.mkObj [("interp", Json.mkObj [("r", "stuck"), ("why", "unknown function")])]
 
 def main : IO Unit := serve handle
